@@ -97,6 +97,9 @@ def check(ctx, case, h, exc, problems, feats, off_of=None, epoch_of=None):
                 ctx.clause("sample-identity")
                 if s["sample_type"] != tup["sample_type"]:
                     problems.append(("sample-identity", f"{where}: sample type {s['sample_type']} but the schedule said {tup['sample_type']}", None))
+            node_clients = {w.get("node_client") for w in wires} - {None}
+            if node_clients and node_clients != {s["client"]}:
+                problems.append(("sample-identity", f"{where}: the sample says client {s['client']} but its wire request(s) went through the HTTP client of client(s) {sorted(node_clients)}", None))
             ctx.clause("sample-issue-time")
             if not close(s["absolute_time"], epoch + e["vt_begin"]):
                 problems.append(("sample-issue-time", f"{where}: absolute_time {s['absolute_time']!r} but the request was issued at {epoch + e['vt_begin']!r}", None))
